@@ -486,6 +486,8 @@ func notDerivedFromPointer(v, p ssa.Value, depth int, seen map[ssa.Value]bool) s
 					idx = i
 				} else if _, isIface := types.Unalias(a.Type()).Underlying().(*types.Interface); isIface {
 					idx = i
+				} else if bt, isBasic := types.Unalias(a.Type()).Underlying().(*types.Basic); isBasic && bt.Kind() == types.UnsafePointer {
+					idx = i
 				}
 			}
 		}
